@@ -380,7 +380,7 @@ fn expand<const L: usize>(
                     b.enable_trading();
                     let n0 = b.get_trades().len();
                     for bid in [true, false] {
-                        b.set_time(b.get_time() + 1);
+                        b.set_time(b.get_time().saturating_add(1));
                         b.reset_trade_vol();
                         let v = if bid { b.ask_vol() } else { b.bid_vol() }.saturating_add(1);
                         let _ = b.create_and_place_order(side_of(bid), v, 9, None);
